@@ -100,7 +100,17 @@ struct Exec {
   int twin_counter = 0;
   long evals_sup = 0, evals_unsup = 0, skipped = 0, nsteps = 0;
   std::string step_out;  // stdout captured during the current step
-  std::map<std::pair<uint64_t, uint64_t>, std::pair<Bits, int>> purity;
+  struct PurEntry {
+    Bits first;      // result bits
+    int second = 0;  // step of the first evaluation
+    bool stale = false;  // the evaluating instance had returned these very bits for the same evaluator and arguments
+                         // under OTHER parameter values before: if the entry later turns out wrong, that is evidence
+                         // that the evaluator did not use the values last set (C11)
+  };
+  std::map<std::pair<uint64_t, uint64_t>, PurEntry> purity;
+  // last result per (instance serial, evaluator, arguments): (parameter-state hash, bits)
+  std::map<std::pair<uint64_t, uint64_t>, std::pair<uint64_t, Bits>> lastres;
+  uint64_t inst_serial = 0;
   struct Defaults {
     std::map<std::string, long double> p0;
     std::map<std::string, std::vector<long double>> v0;
@@ -620,6 +630,7 @@ void Exec::do_init(const Step& st, const Client& cl, const std::string& handle, 
   TRACE("init handle='%s' raw='%s' -> %s existed=%d livebytes %+lld", handle.c_str(), raw.c_str(), g_sols[solidx].name.c_str(), (int)existed, bytes1 - bytes0);
   Inst fresh;
   fresh.sol = solidx;
+  fresh.serial = ++inst_serial;
   R.m[handle] = fresh;
   R.has_cur = true;
   R.cur = handle;
@@ -742,13 +753,40 @@ void Exec::do_eval(const Step& st, const Client& cl, int ev, int depth) {
   ++evals_sup;
   // purity: same (solution, parameters, evaluator, arguments) => same bits, anywhere in the run
   orc_eval("C10");
+  orc_eval("C11");
+  // staleness evidence: same instance, same evaluator and arguments, other parameter values, identical bits
+  bool stale = false;
+  {
+    Fnv fa;
+    fa.i32(ev);
+    fa.i32(a.k);
+    fa.i32(st.c % 3);
+    for (int i = 0; i < 4; ++i) {
+      Bits b = bits_of(a.x[i]);
+      fa.u64(b.lo);
+      fa.i32(b.hi);
+    }
+    std::pair<uint64_t, uint64_t> lk(inst2.serial, fa.h);
+    auto lp = lastres.find(lk);
+    if (lp != lastres.end() && lp->second.first != key.first && lp->second.second == rb) stale = true;
+    lastres[lk] = std::make_pair(key.first, rb);
+  }
   auto it = purity.find(key);
-  if (it == purity.end())
-    purity[key] = std::make_pair(rb, stepno);
-  else if (it->second.first != rb)
+  if (it == purity.end()) {
+    PurEntry pe;
+    pe.first = rb;
+    pe.second = stepno;
+    pe.stale = stale;
+    purity[key] = pe;
+  } else if (it->second.first != rb) {
     viol("C10", "C10.purity", sol.name + ":" + E.shortname + "/" + E.sig,
          "evaluation returns " + fmt_ld(r) + " [" + fmt_bits(rb) + "] but the same solution, parameters and arguments gave [" +
              fmt_bits(it->second.first) + "] at step " + std::to_string(it->second.second));
+    if (stale || it->second.stale)
+      viol("C11", "C11.lastset.stale", sol.name + ":" + E.shortname + "/" + E.sig,
+           "an instance kept returning the bits it had returned before its parameters were changed, while an instance holding the same values "
+           "returns other bits: the evaluator did not use the values last set");
+  }
   // evaluating never changes a parameter
   if (!selection_moved) verify_selected<S>(prec, inst2, "C10", "C10.frame.eval");
   Inst::Recent rc2;
